@@ -282,7 +282,12 @@ class Interceptor:
                         _real["unlink"](e.path)
                 me.op("rmtree-rmdir", d)
                 _real["rmdir"](d)
-            rm(os.fspath(path))
+            ignore = k.get("ignore_errors", a[0] if a else False)
+            try:
+                rm(os.fspath(path))
+            except OSError:
+                if not ignore:
+                    raise
 
         def x_sleep(t):
             if me.all_threads or me.ctl.is_actor():
